@@ -1,4 +1,5 @@
-import RP.Lemmas.C01.Table
+import RP.Lemmas.C01.Sound
+import RP.Lemmas.C01.Order
 /-! consequences of the table on classes: model result = rules value -/
 namespace RP.C01
 open RP.Bits RP.Eval RP.Spec.Poker
@@ -17,13 +18,20 @@ structure ValidCls (c : Cls) : Prop where
   rk : c.rk = ranksOfW 13 c.cv
   fl : ∀ F, c.fl = some F → F < 2^13 ∧ 5 ≤ popW 13 F ∧ popW 13 F ≤ 7 ∧ 5 ≤ popW 13 (ranksOfW 13 c.cv)
 
-theorem rowN_of_valid (cfg : Cfg) (cv : Nat) (h1 : validCV 13 cv) (h2 : 5 ≤ digitSum 13 cv) (h3 : digitSum 13 cv ≤ 7) :
-    rowN cfg cv = true :=
-  forallCV_sound 13 7 (rowN cfg) (tabN_all cfg) cv h1 h3 (by omega)
+/-- the two table facts everything below rests on: the walkers accept every row.  Instantiated
+    by native evaluation in `Native.lean` (quick tier) and by kernel evaluation in
+    `Kernel/All.lean` (thorough tier). -/
+structure TableOK (cfg : Cfg) : Prop where
+  n : forallCV 13 7 (rowN cfg) = true
+  f : forallF (rowF cfg) = true
 
-theorem rowF_of_valid (cfg : Cfg) (F : Nat) (h1 : F < 2^13) (h2 : 5 ≤ popW 13 F) (h3 : popW 13 F ≤ 7) :
+theorem rowN_of_valid_of {cfg : Cfg} (T : TableOK cfg) (cv : Nat) (h1 : validCV 13 cv) (h2 : 5 ≤ digitSum 13 cv) (h3 : digitSum 13 cv ≤ 7) :
+    rowN cfg cv = true :=
+  forallCV_sound 13 7 (rowN cfg) T.n cv h1 h3 (by omega)
+
+theorem rowF_of_valid_of {cfg : Cfg} (T : TableOK cfg) (F : Nat) (h1 : F < 2^13) (h2 : 5 ≤ popW 13 F) (h3 : popW 13 F ≤ 7) :
     rowF cfg F = true :=
-  forallF_sound (rowF cfg) (tabF_all cfg) F h1 h2 h3
+  forallF_sound (rowF cfg) T.f F h1 h2 h3
 
 /-- with a flush suit the evaluator looks at nothing else -/
 theorem evalA?_flush (cfg : Cfg) (cv rk F : Nat) : evalA? cfg ⟨cv, rk, some F⟩ = evalA? cfg ⟨0, 0, some F⟩ := by
@@ -38,9 +46,9 @@ theorem evalA_flush (cfg : Cfg) (cv rk F : Nat) : evalA cfg ⟨cv, rk, some F⟩
 
 /-- **the table on classes**: on every valid class the evaluator succeeds, its result is
     well-formed, and translated into the value space of the rules it is the rules' value of the class -/
-theorem table_cls (cfg : Cfg) (c : Cls) (hv : ValidCls c) :
+theorem table_cls_of {cfg : Cfg} (T : TableOK cfg) (c : Cls) (hv : ValidCls c) :
     (evalA? cfg c).isSome = true ∧ wfRes (evalA cfg c) = true ∧ specOf cfg (evalA cfg c) = specA cfg c := by
-  have hN := rowN_of_valid cfg c.cv hv.cv hv.lo hv.hi
+  have hN := rowN_of_valid_of T c.cv hv.cv hv.lo hv.hi
   simp only [rowN, Bool.and_eq_true, beq_iff_eq, Bool.or_eq_true, decide_eq_true_eq] at hN
   obtain ⟨⟨⟨n1, n2⟩, n3⟩, n5⟩ := hN
   have hrk := hv.rk
@@ -56,7 +64,7 @@ theorem table_cls (cfg : Cfg) (c : Cls) (hv : ValidCls c) :
     rw [e2, n2]
   | some F =>
     obtain ⟨f1, f2, f3, f4⟩ := hfl F rfl
-    have hF := rowF_of_valid cfg F f1 f2 f3
+    have hF := rowF_of_valid_of T F f1 f2 f3
     simp only [rowF, Bool.and_eq_true, beq_iff_eq, decide_eq_true_eq] at hF
     obtain ⟨⟨⟨g1, g2⟩, g3⟩, g4⟩ := hF
     have hA : specA cfg ⟨cv, rk, some F⟩ = specF cfg F := by
@@ -73,10 +81,10 @@ theorem table_cls (cfg : Cfg) (c : Cls) (hv : ValidCls c) :
     · rw [evalA_flush, hA]; exact g2
 
 /-- **order on valid classes = order of the rules' values** -/
-theorem order_cls (cfg : Cfg) (c1 c2 : Cls) (h1 : ValidCls c1) (h2 : ValidCls c2) :
+theorem order_cls_of {cfg : Cfg} (T : TableOK cfg) (c1 c2 : Cls) (h1 : ValidCls c1) (h2 : ValidCls c2) :
     compare (keyA cfg (evalA cfg c1)) (keyA cfg (evalA cfg c2)) = compare (specA cfg c1) (specA cfg c2) := by
-  obtain ⟨_, w1, e1⟩ := table_cls cfg c1 h1
-  obtain ⟨_, w2, e2⟩ := table_cls cfg c2 h2
+  obtain ⟨_, w1, e1⟩ := table_cls_of T c1 h1
+  obtain ⟨_, w2, e2⟩ := table_cls_of T c2 h2
   rw [key_order cfg _ _ w1 w2, e1, e2]
 
 end RP.C01
